@@ -3,13 +3,21 @@ import struct
 from ..runner import Spec, Case
 from .. import core
 
-PSIZE = [1, 4, 8, 12, 16, 40, 24]          # plain-struct probe types P0..P6 of the harness (bytes)
-RAW_ANY = '0123456'                          # element / Table key and value types of any size (Table and Array round up to words)
-RAW_TREE = '2456'                            # sizes 8, 16, 40, 24: a Tree takes multiples of 8 only (KF-C19-tree-misaligned-header)
+MAXPROBE = 41                                # plain-struct probe types P1..P41 of the harness: P<n> is n bytes; type code = str(n)
+SIZES = list(range(1, MAXPROBE + 1))
+RAW_ANY = [str(n) for n in SIZES]            # element / Table key and value types of every size 1..41 (Table and Array round up to words)
+RAW_TREE = [str(n) for n in SIZES if n % 8 == 0]   # 8, 16, 24, 32, 40: a Tree takes multiples of 8 only (KF-C19-tree-misaligned-header)
+RAW_ODD = [str(n) for n in SIZES if n % 8]   # sizes that are not a whole number of words (and, among them, not of half words)
+SCALARS3 = ['I', 'F', 'S']
+def is_raw(ty): return ty.isdigit()
+def raw_or(rng, base, raws):
+    """one of the built-in codes in `base` (a string of one-letter codes) or one of the plain-struct sizes in `raws`, each group equally likely per member"""
+    return rng.choice(list(base) + list(raws))
 # key / value type pairs of different sizes: narrow key with wide value, wide key with narrow value, both wide and different
-WIDTH_PAIRS_TREE = [('I', '6'), ('I', '5'), ('I', '4'), ('5', 'I'), ('6', 'I'), ('4', '6'), ('6', '4'), ('2', '5'), ('5', '2'), ('S', '6'), ('S', '5'),
-                    ('6', 'S'), ('4', 'F'), ('I', '6'), ('I', '5')]
-WIDTH_PAIRS_TABLE = WIDTH_PAIRS_TREE + [('I', '3'), ('1', '6'), ('3', '1'), ('0', '5'), ('5', '0'), ('1', '3'), ('3', 'S'), ('S', '3'), ('0', 'I')]
+WIDTH_PAIRS_TREE = [('I', '24'), ('I', '40'), ('I', '16'), ('40', 'I'), ('24', 'I'), ('16', '24'), ('24', '16'), ('8', '40'), ('40', '8'), ('S', '24'), ('S', '40'),
+                    ('24', 'S'), ('16', 'F'), ('I', '32'), ('32', '8')]
+WIDTH_PAIRS_TABLE = WIDTH_PAIRS_TREE + [('I', '12'), ('4', '24'), ('12', '4'), ('1', '40'), ('40', '1'), ('4', '12'), ('12', 'S'), ('S', '12'), ('1', 'I'),
+                                        ('5', '7'), ('6', 'I'), ('I', '13'), ('3', '21'), ('41', '2'), ('9', '15'), ('S', '6'), ('7', 'F'), ('33', '5')]
 BUILTINS = ['Int', 'Float', 'String', 'Array', 'List', 'Table', 'Tree', 'Tuple', 'Ref', 'Box', 'Type', 'Range', 'Slice', 'File']
 LCM = 5 * 11 * 23 * 53            # Int keys congruent modulo every small Table size collide in all of them
 I64MIN, I64MAX = -2**63, 2**63 - 1
@@ -51,13 +59,84 @@ class G:
         if ty == 'F': return f'f:{self.float_bits():016x}'
         if ty == 'S': return 's:' + self.str_bytes().hex()
         if ty == 'T': return r.choice(['t:', 'u:']) + r.choice(BUILTINS)
-        if ty in RAW_ANY:
-            k = int(ty); n = PSIZE[k]
+        if is_raw(ty):
+            n = int(ty)
             b = bytes(r.randrange(256) for _ in range(n)) if r.random() < 0.6 else bytes([r.choice([0, 1, 255])] * n)
-            return f'p{k}:' + b.hex()
+            return f'p{n}:' + b.hex()
         raise ValueError(ty)
 
+def spec_key(ety, sp):
+    """position of a spec in the order sort() must produce among values of one type"""
+    if ety == 'I': return int(sp[2:])
+    if ety == 'F':
+        b = int(sp[2:], 16); m = b & 0x7fffffffffffffff
+        return -m if b >> 63 else m
+    return bytes.fromhex(sp.split(':', 1)[1])
+def sorted_specs(ety, content): return sorted(content, key=lambda sp: spec_key(ety, sp))
+
+# sizes in the order in which a broken byte-wise move shows first: not a whole number of words with more than a half word left
+# (5, 6, 7 modulo 8), then the other sizes that are not a multiple of 4, then of 8, then the whole words
+SIZES_ODD_FIRST = sorted(SIZES, key=lambda n: (0 if n % 8 >= 5 else 1 if n % 4 else 2 if n % 8 else 3, n))
+
 # ---------------------------------------------------------------------------------------------------------------- case families
+def size_sweep_case(rng, name, sizes, reps=1):
+    """every plain-struct size in `sizes`: two different structs of that size on the stack, on the heap and embedded in an Array are
+    swapped pairwise across all allocation classes (swap(a, b) must exchange them: each byte position carries a value that names the
+    object and the position, with bytes >= 0x80), swapped with themselves, copied, assigned; an Array of such structs in descending,
+    random and repeated order is sorted (quicksort: every element move is a swap of two element structs) and compared with the Array
+    built in order; the same Array as the value of a Ref-free Table slot (rounded up to words) is left to the other families."""
+    g = G(rng); L = []
+    def struct(n, tag):
+        r = rng.random()
+        if r < 0.4: b = bytes(((tag << 6) | (j & 0x3f)) & 0xff for j in range(n))        # names object and position; tag 2, 3: high bytes
+        elif r < 0.8: b = bytes(rng.randrange(256) for _ in range(n))
+        else: b = bytes([rng.choice([0x00, 0x7f, 0x80, 0xff])] * (n - 1) + [rng.randrange(256)])
+        return f'p{n}:' + b.hex()
+    for n in sizes:
+        for _ in range(reps):
+            ids = {}
+            for tag, (nm, cls) in enumerate([('a', 'S'), ('b', 'H'), ('c', 'E'), ('d', 'E'), ('e', 'S'), ('f', 'H')]):
+                i = g.fresh(); ids[nm] = i; L.append(f'new {i} {cls} {struct(n, tag % 4)}')
+            a, b, c, d, e, f = (ids[k] for k in 'abcdef')
+            L += [f'swap {a} {b}', f'swap {b} {c}', f'swap {c} {d}', f'swap {d} {a}', f'swap {a} {e}', f'swap {b} {f}', f'swap {c} {e}', f'swap {a} {a}', f'swap {c} {c}',
+                  f'eq {a} {b}', f'eq {c} {d}']
+            k = g.fresh(); L += [f'copy {k} {c}', f'eq {k} {c}', f'assign {b} {d}', f'eq {b} {d}', f'assign {c} {a}', f'eq {a} {c}', f'swap {k} {b}', f'swap {k} {b}',
+                                 f'put {a} {struct(n, 1)}', f'swap {a} {c}']
+            # sort
+            m = rng.choice([2, 3, 4, 5, 7, 9])
+            elems = [struct(n, rng.randrange(4)) for _ in range(m)]
+            if m > 3 and rng.random() < 0.5: elems[rng.randrange(m)] = elems[rng.randrange(m)]
+            order = rng.choice(['desc', 'rand', 'asc'])
+            if order == 'desc': elems = list(reversed(sorted_specs(str(n), elems)))
+            elif order == 'asc': elems = sorted_specs(str(n), elems)
+            x = g.fresh(); L.append(f'arr {x} {rng.choice("SH")} {n}' + ''.join(' ' + sp for sp in elems))
+            y = g.fresh(); L.append(f'arr {y} H {n}' + ''.join(' ' + sp for sp in sorted_specs(str(n), elems)))
+            L += [f'heq {x} {y}', f'sort {x}', f'eq {x} {y}', f'sort {x}', f'eq {y} {x}']
+            z = g.fresh(); L += [f'copy {z} {x}', f'eq {z} {y}', f'pushat {z} 0 {struct(n, 3)}', f'sort {z}', f'popat {z} {rng.randrange(m + 1)}', f'H {z}']
+    return Case(name, L)
+
+def align_lines(rng, lens):
+    """hash_data over every length in `lens`; the harness hashes each input at every start alignment 0..7 inside a larger buffer
+    (with three kinds of neighbouring bytes) and compares with MurmurHash64A of the bytes. Contents: all bytes >= 0x80; a single byte
+    >= 0x80 at every position among low bytes; a single low byte at every position among high bytes; random."""
+    L = []
+    for n in lens:
+        L.append('D ' + bytes(0x80 | (j & 0x7f) for j in range(n)).hex() if n else 'D')
+        if not n: continue
+        L.append('D ' + bytes([0xff] * n).hex())
+        for p in range(n):
+            lo = bytearray((j % 0x7f) + 1 for j in range(n)); lo[p] = rng.choice([0x80, 0xff, 0x80 | rng.randrange(128)]); L.append('D ' + bytes(lo).hex())
+        for p in rng.sample(range(n), min(n, 4)):
+            hi = bytearray(0x80 | rng.randrange(128) for _ in range(n)); hi[p] = rng.randrange(128); L.append('D ' + bytes(hi).hex())
+        L.append('D ' + bytes(rng.randrange(256) for _ in range(n)).hex())
+    return L
+
+def align_cases(rng, quick, boost):
+    lines = align_lines(rng, range(0, 65))
+    for _ in range((10 if quick else 100) * boost):       # longer inputs: several blocks and a tail, high bytes everywhere
+        n = rng.randrange(65, 300); lines.append('D ' + bytes(0x80 | rng.randrange(128) for _ in range(n)).hex())
+    return [Case(f'align{i // 600}', lines[i:i + 600]) for i in range(0, len(lines), 600)]
+
 def hashdata_cases(rng, quick, boost):
     lines = ['D']
     reps = (10 if quick else 16) * boost
@@ -80,7 +159,7 @@ def hashdata_cases(rng, quick, boost):
 def scalar_case(rng, name, rounds):
     g = G(rng); L = []
     for _ in range(rounds):
-        ty = rng.choice(['I', 'I', 'F', 'F', 'S', 'S', 'T', '0', '1', '2', '3', '4', '5'])
+        ty = rng.choice(['I', 'I', 'F', 'F', 'S', 'S', 'T'] + [rng.choice(RAW_ANY) for _ in range(6)])
         sp = g.spec(ty)
         ids = []
         for cls in (['S', 'H'] if ty == 'T' else ['S', 'H', 'E']):
@@ -156,7 +235,7 @@ def build_seq(g, L, kind, ety, content, style):
 def seq_case(rng, name, rounds, maxlen):
     g = G(rng); L = []
     for _ in range(rounds):
-        ety = rng.choice('IIFS') if rng.random() < 0.6 else rng.choice(RAW_ANY)      # elements of 1 … 40 bytes
+        ety = rng.choice('IIFS') if rng.random() < 0.6 else rng.choice(RAW_ANY)      # elements of 1 … 41 bytes
         n = rng.choice([0, 1, 2, 3]) if rng.random() < 0.3 else rng.randrange(0, maxlen + 1)
         content = [g.spec(ety) for _ in range(n)]
         if n >= 2 and rng.random() < 0.3: content[rng.randrange(n)] = content[rng.randrange(n)]       # repeated elements
@@ -186,6 +265,13 @@ def seq_case(rng, name, rounds, maxlen):
         # swap two containers of one kind
         a = build_seq(g, L, 'arr', ety, content, 'push'); b = build_seq(g, L, 'arr', rng.choice('IFS'), [], 'ctor')
         L.append(f'swap {a} {b}'); L.append(f'eq {b} {ids[0]}')
+        # sort: the sorted Array hashes like the unsorted one and is eq to the Array built from the sorted contents (NaN-free)
+        if not (ety == 'F' and any((int(c[2:], 16) & 0x7fffffffffffffff) > 0x7ff0000000000000 for c in content)):
+            so = build_seq(g, L, 'arr', ety, content, rng.choice(['ctor', 'push', 'front'])); L.append(f'sort {so}'); L.append(f'heq {so} {ids[0]}')
+            L.append(f'sort {so}')
+            ref = build_seq(g, L, 'arr', ety, sorted_specs(ety, content), 'ctor')
+            if ety != 'F': L.append(f'eq {so} {ref}')
+            else: L.append(f'heq {so} {ref}')
         x = build_seq(g, L, 'lst', ety, content, 'ctor'); y = build_seq(g, L, 'lst', ety, content[: n // 2], 'push')
         L.append(f'swap {x} {y}'); L.append(f'eq {y} {ids[0]}'); L.append(f'swap {x} {x}')
         if rng.random() < 0.5:
@@ -202,10 +288,10 @@ def map_keys(g, kty, n, colliding):
             sp = f'i:{k}'
         elif kty == 'S': sp = 's:' + g.str_bytes(6).hex()
         else:      # plain struct keys: mostly differing in one late byte (equal prefixes: the comparison must look at the whole key)
-            kk = int(kty); nb = PSIZE[kk]
+            nb = int(kty)
             if rng.random() < 0.5: b = bytearray(nb); b[rng.randrange(nb)] = rng.randrange(256); b[-1] ^= rng.randrange(4)
             else: b = bytearray(rng.randrange(256) for _ in range(nb))
-            sp = f'p{kk}:' + bytes(b).hex()
+            sp = f'p{nb}:' + bytes(b).hex()
         if sp not in keys: keys.append(sp)
     return keys
 
@@ -253,7 +339,7 @@ def map_case(rng, name, rounds, maxn):
     for _ in range(rounds):
         if rng.random() < 0.45: kty = rng.choice('IIS'); vty = rng.choice('ISF')
         elif rng.random() < 0.7: kty, vty = rng.choice(WIDTH_PAIRS_TREE)                  # key and value of different sizes
-        else: kty = rng.choice('IS' + RAW_TREE); vty = rng.choice('ISF' + RAW_TREE)
+        else: kty = raw_or(rng, 'IS', RAW_TREE); vty = raw_or(rng, 'ISF', RAW_TREE)
         n = rng.randrange(0, 4) if rng.random() < 0.25 else rng.randrange(0, maxn + 1)
         keys = map_keys(g, kty, n, kty == 'I' and rng.random() < 0.6)
         entries = [(k, g.spec(vty)) for k in keys]
@@ -297,7 +383,7 @@ def tree_rem_case(rng, name, rounds, maxn):
     is built directly from the remaining pairs, copied and assigned. Key and value types of different sizes."""
     g = G(rng); L = []
     for _ in range(rounds):
-        kty, vty = rng.choice(WIDTH_PAIRS_TREE) if rng.random() < 0.8 else (rng.choice('IS' + RAW_TREE), rng.choice('ISF' + RAW_TREE))
+        kty, vty = rng.choice(WIDTH_PAIRS_TREE) if rng.random() < 0.8 else (raw_or(rng, 'IS', RAW_TREE), raw_or(rng, 'ISF', RAW_TREE))
         n = rng.randrange(3, maxn + 1)
         keys = map_keys(g, kty, n, False) if kty != 'I' or rng.random() < 0.5 else [f'i:{k}' for k in rng.sample(range(-300, 500), n)]
         entries = [(k, g.spec(vty)) for k in keys]
@@ -323,12 +409,12 @@ def table_wide_case(rng, name, rounds, maxn):
     (and, for Tree-compatible types, Trees) built directly from the same pairs, and with its copy."""
     g = G(rng); L = []
     for _ in range(rounds):
-        kty, vty = rng.choice(WIDTH_PAIRS_TABLE) if rng.random() < 0.8 else (rng.choice('IS' + RAW_ANY), rng.choice('ISF' + RAW_ANY))
+        kty, vty = rng.choice(WIDTH_PAIRS_TABLE) if rng.random() < 0.8 else (raw_or(rng, 'IS', RAW_ANY), raw_or(rng, 'ISF', RAW_ANY))
         n = rng.randrange(2, maxn + 1)
         keys = map_keys(g, kty, n, kty == 'I' and rng.random() < 0.7)
         cur = {}
         t = g.fresh(); L.append(f'tab {t} {rng.choice("SH")} {kty} {vty}')
-        treeok = all(c in 'ISF' + RAW_TREE for c in (kty, vty))
+        treeok = all(c in list('ISF') + RAW_TREE for c in (kty, vty))
         for step in range(rng.randrange(n, 3 * n + 1)):
             r = rng.random()
             if r < 0.55 or not cur:
@@ -433,7 +519,7 @@ def near_pair(rng, ty):
     if ty == 'F': a, b = near_float_pair(rng); return f'f:{a:016x}', f'f:{b:016x}'
     if ty == 'I': a, b = near_int_pair(rng); return f'i:{a}', f'i:{b}'
     if ty == 'S': a, b = near_bytes_pair(rng); return 's:' + a.hex(), 's:' + b.hex()
-    k = int(ty); a, b = near_bytes_pair(rng, PSIZE[k], nonzero=False); return f'p{k}:' + a.hex(), f'p{k}:' + b.hex()
+    k = int(ty); a, b = near_bytes_pair(rng, k, nonzero=False); return f'p{k}:' + a.hex(), f'p{k}:' + b.hex()
 
 def near_case(rng, name, rounds):
     """nearly equal scalars — doubles 1..4 ulp apart at every magnitude, the two zeros, results of arithmetic against the literal
@@ -443,7 +529,7 @@ def near_case(rng, name, rounds):
     makes a second entry and can be removed again without touching the first. Self-assignment of every kind."""
     g = G(rng); L = []
     for _ in range(rounds):
-        ty = rng.choice('FFFFIISS' + '2' + rng.choice(RAW_ANY))
+        ty = rng.choice(list('FFFFIISS') + ['8', rng.choice(RAW_ANY)])
         sa, sb = near_pair(rng, ty)
         # scalars
         ia = []
@@ -469,10 +555,10 @@ def near_case(rng, name, rounds):
         else: L += [f'assign {ca} {ca}']
         if kb != 'tup' and rng.random() < 0.5: L += [f'rem {cb} {sa}', f'H {cb}']
         # the same pair as keys
-        if ty in 'IFS' + RAW_ANY:
+        if ty in SCALARS3 or is_raw(ty):
             for kind in ('tab', 'tre'):
-                if kind == 'tre' and ty in RAW_ANY and ty not in RAW_TREE: continue
-                vty = rng.choice('IFS' + (RAW_TREE if kind == 'tre' else RAW_ANY)) if rng.random() < 0.5 else 'I'
+                if kind == 'tre' and is_raw(ty) and ty not in RAW_TREE: continue
+                vty = raw_or(rng, 'IFS', RAW_TREE if kind == 'tre' else RAW_ANY) if rng.random() < 0.5 else 'I'
                 others = [k for k in {near_pair(rng, ty)[0] for _ in range(rng.randrange(0, 4))} if k not in (sa, sb)]
                 if ty == 'F':      # no two eq keys among the others (the two zeros are one key)
                     seen = set(); keep = []
@@ -502,17 +588,17 @@ def fuzz_case(rng, name, nops):
     for _ in range(nops):
         r = rng.random()
         if r < 0.15 or len(pool) < 4:
-            ty = rng.choice('IFS' + 'IFS' + RAW_ANY); i = g.fresh(); cls = rng.choice('SHE'); L.append(f'new {i} {cls} {g.spec(ty)}'); pool[i] = ('v', ty, 0, cls)
+            ty = rng.choice(list('IFSIFS') + [rng.choice(RAW_ANY) for _ in range(7)]); i = g.fresh(); cls = rng.choice('SHE'); L.append(f'new {i} {cls} {g.spec(ty)}'); pool[i] = ('v', ty, 0, cls)
         elif r < 0.25:
-            ty = rng.choice('IFS' + 'IFS' + RAW_ANY); kind = rng.choice(['arr', 'lst']); i = g.fresh(); n = rng.randrange(0, 6)
+            ty = rng.choice(list('IFSIFS') + [rng.choice(RAW_ANY) for _ in range(7)]); kind = rng.choice(['arr', 'lst']); i = g.fresh(); n = rng.randrange(0, 6)
             L.append(f'{kind} {i} {rng.choice("SH")} {ty}' + ''.join(' ' + g.spec(ty) for _ in range(n))); pool[i] = (kind, ty, n, 'H')
         elif r < 0.30:
             items = [j for j, v in pool.items() if v[0] == 'v']; rng.shuffle(items); items = items[:rng.randrange(0, 4)]
             i = g.fresh(); cls = rng.choice('SHH'); L.append(f'tup {i} {cls}' + ''.join(f' {j}' for j in items)); pool[i] = ('tup', '?', len(items), cls)
         elif r < 0.36:
-            i = g.fresh(); kty = rng.choice('IISS' + RAW_TREE); vty = rng.choice('IFS' + RAW_TREE); n = rng.randrange(0, 7)
+            i = g.fresh(); kty = raw_or(rng, 'IISS', RAW_TREE); vty = raw_or(rng, 'IFS', RAW_TREE); n = rng.randrange(0, 7)
             ks = map_keys(g, kty, n, False)
-            L.append(f'tre {i} H {kty} {vty}' + ''.join(f' {k} {g.spec(vty)}' for k in ks)); pool[i] = ('tre', kty + vty, n, 'H')
+            L.append(f'tre {i} H {kty} {vty}' + ''.join(f' {k} {g.spec(vty)}' for k in ks)); pool[i] = ('tre', (kty, vty), n, 'H')
         elif r < 0.55:
             c = pick(['arr', 'lst', 'tup', 'tre'])
             if c is None: continue
@@ -525,11 +611,12 @@ def fuzz_case(rng, name, nops):
             else:
                 sp = g.spec(ety)
                 L.append(rng.choice([f'push {c} {sp}', f'push {c} {sp}', f'pop {c}', f'popat {c} {rng.randrange(-3, 6)}', f'pushat {c} {rng.randrange(-3, 6)} {sp}',
-                                     f'set {c} {rng.randrange(-3, 6)} {sp}', f'rem {c} {sp}', f'resize {c} {rng.randrange(0, 8)}', f'clear {c}']))
+                                     f'set {c} {rng.randrange(-3, 6)} {sp}', f'rem {c} {sp}', f'resize {c} {rng.randrange(0, 8)}', f'clear {c}'] +
+                                    ([f'sort {c}', f'sort {c}'] if kind == 'arr' else [])))
         elif r < 0.59:
             c = pick(['arr', 'lst', 'tre'])
             if c is None: continue
-            kind, ety, n, cls = pool[c]; L.append(f'has {c} {g.spec(ety[0])}')
+            kind, ety, n, cls = pool[c]; L.append(f'has {c} {g.spec(ety[0] if kind == "tre" else ety)}')
         elif r < 0.70:
             a, b = pick(), pick(); L.append(f'eq {a} {b}')
         elif r < 0.80:
@@ -558,8 +645,17 @@ class C10(Spec):
                   'the same hash — robin-hood re-insertion keeps the multiset of entries — while eq(copy(t), t) itself holds only when the slot orders agree '
                   '(known finding F06, refuted on a witness); every Tree reached from the empty Tree by any history of set/rem is strictly descending, so its copy is eq, and two histories ending in the '
                   'same set of entries give eq Trees with equal hashes; '
-                  'swap exchanges the two values. Elements of any width: keys, values and sequence elements are values of any size (Int, String, '
-                  'plain structs of 1..40 bytes); the model moves an element a container already holds through an explicit memcpy on 64-bit words '
+                  'swap exchanges the two values: memswap (src/Assign.c) is extracted as a program — blocks over the remaining count (for / while (s >= k) / '
+                  'if (s >= k) / while (s--)) of load-temporary, copy-across, store-temporary, cursor-advance and count-decrement statements with their widths — '
+                  'that the model runs statement by statement on the bytes of the two structs; proved: the extracted program has the shape of a swap '
+                  '(C10_memswap_source_shape, about the generated definition) and every program of that shape — exchange steps of any widths closed by a '
+                  'byte loop — exchanges two n-byte objects for every n and every byte type (C10_memswap_exchanges), also the correct three-stage word-wise '
+                  'rewrite (C10_memswap_wordwise_exchanges); a half-word stage that does not advance its cursors is refuted exactly on the sizes 5, 6, 7 '
+                  'modulo 8, whole-words-only on every size that is not a multiple of 8 (C10_memswap_stale_cursor_refuted); hence swap(a,b) exchanges values '
+                  'and hashes of any two objects of one type, and sort() of an Array (the quicksort of src/Array.c, every element move a swap through that '
+                  'memswap) never reads outside the Array, ends, and leaves a permutation of the elements with the same container hash, for elements of any '
+                  'size (C10_sort_keeps_elements_and_hash). Elements of any width: keys, values and sequence elements are values of any size (Int, String, '
+                  'plain structs of every size 1..41 bytes); the model moves an element a container already holds through an explicit memcpy on 64-bit words '
                   '(blit) with the offsets and widths the translator extracts from Tree_Rem / Tree_Alloc / Tree_Key / Tree_Val, Table_Step / '
                   'Table_Key / Table_Val / Table_Set_Move(move) / Table_Rehash / Table_Rem and Array_Step / Array_Item / Array_Pop_At / Array_Push_At; '
                   'proved for every header/key/value width: those widths cover the element (C10_move_widths_cover, about the generated definitions), '
@@ -579,15 +675,22 @@ class C10(Spec):
                   'rebalancing (Tree_Set_Fix / Tree_Rem_Fix: relinking and recolouring only, no payload move — checked by the translator) is '
                   'abstracted as any order-preserving relinking, the theorems hold for every shape; the shape and balance the C code produces are '
                   'property C03 (engine tree). Element memory is modelled at word granularity (a struct whose size is not a multiple of 8 is '
-                  'zero-padded to the container\'s rounded size).')
-    rule = ('op files: (a) hash_data on every length 0..64 (random, constant, one-bit neighbours) and random longer inputs, each also at 8 alignments; '
+                  'zero-padded to the container\'s rounded size). memswap is modelled at byte granularity; the struct of a value that is not a plain '
+                  'struct (a number, a buffer pointer, the fields of a container) is followed byte by byte through the program by position only: the values change '
+                  'sides when every byte does, any other outcome is reported by the driver as a mixture. Sortedness of the result of sort() is C04\'s; here: no element lost, hash kept.')
+    rule = ('op files: (0) every plain-struct size 1..41 bytes (sizes that are not a whole number of words first): two different structs on the stack, on the '
+            'heap and embedded in an Array swapped pairwise across the allocation classes and with themselves (oracle: values and hashes exchanged), copied, '
+            'assigned, put; an Array of 2..9 such structs (descending, random, ascending, repeated) sorted and compared with the Array built in order (oracle: '
+            'same multiset of elements, in order, same hash); (a) hash_data on every length 0..64 (random, constant, one-bit neighbours, all bytes >= 0x80, one '
+            'byte >= 0x80 at every position, one low byte among high bytes) and random longer inputs, each hashed at every start alignment 0..7 inside a '
+            'larger buffer with three kinds of neighbouring bytes and compared with an independent MurmurHash64A; '
             '(b) scalars of every type in the stack/heap/embedded allocation classes, compared pairwise, copied, assigned, put, swapped, through Ref/Box; '
             '(c) one target sequence built as Array/List/Tuple through 6 histories (constructor, push, push_at front, superset+pop_at+reserve, concat of '
             'halves, truncation+set), all pairs compared across kinds, copies, assignments, permutations, prefixes, swaps; (d) one target map built as Tree '
             'and Table through 7 histories (constructor, insertion orders, updates, extra keys removed, reserve, refill) with Int keys colliding modulo '
             '5/11/23/53 and String keys: Trees compared/copied/assigned, Tables hashed against each other and the Trees, eq/copy only for layout-independent '
             'Tables; (e) random op sequences; (f) element, key and value types of different sizes throughout (c)-(e): Int/String/Float and plain '
-            'structs of 1, 4, 8, 12, 16, 24, 40 bytes (Tree: multiples of 8 only), narrow key with wide value, wide key with narrow value; a Tree filled '
+            'structs of every size 1..41 bytes (Tree: multiples of 8 only), narrow key with wide value, wide key with narrow value; a Tree filled '
             'in random order and emptied key by key (removals of leaves, one-child and two-children nodes: the in-order neighbour is relocated), '
             'compared after each removal with a directly built Tree, copied, assigned; a Table of such types through insertions into probe clusters, '
             'removals with back-shift, growing/shrinking rehashes and reserves, hashed against directly built Tables/Trees and its copy; '
@@ -601,23 +704,30 @@ class C10(Spec):
             'such elements through removals and insertions in the middle. Every op prints the value (Table: slot array) and the hash, compared with the Lean model '
             '(which performs every element move with the width extracted from the source); the harness counts two-children removals and shifting '
             'removals on wide entries (I lines). '
-            'non-trivial item = a distinct observation line of an eq/heq/copy/assign/swap op that was executed (not refused), or of hash_data with len>0.')
+            'non-trivial item = a distinct observation line of an eq/heq/copy/assign/swap/sort op that was executed (not refused), or of hash_data with len>0.')
     trusted_base = ('translate/g_hash.py generator Hash (regex over hash_data, Int_Hash, Float_Hash, String_Hash, Type_Hash, the five container hashes, '
-                    'the hash/cmp/assign/swap/copy defaults, Table_Primes; the size/offset expressions of Tree_Alloc/Key/Val/Rem, Table_Step/Key/Val/'
+                    'the hash/cmp/assign/swap/copy defaults, Table_Primes; a recursive-descent reader of the body of memswap (guard, cursor declarations, the four '
+                    'loop forms, memcpy / *a++ / p[i] statements) and the field counts of the structs swap exchanges; the size/offset expressions of Tree_Alloc/Key/Val/Rem, Table_Step/Key/Val/'
                     'Set_Move/Rehash/Rem, Array_Step/Item/Pop_At/Push_At)',
                     'harness/h_hash.c + lean/Driver/Hash.lean (correspondence is testing)',
                     'SubSign for the machine\'s doubles (sign of a - b = sign of the real difference): proved for the exact IEEE-754 model sfOps, which the driver tests against Lean Float on every compared pair',
                     'little-endian memcpy of 8 bytes into a uint64_t (x86-64)')
     assumptions = ('Float values are not NaN (eq(NaN, x) is true for every x: candidate known finding KF-C10-float-nan)',
                    'Table eq/copy-eq only for tables whose slot order is determined by their contents (known finding KF-C10-table-cmp, F06)',
-                   'containers hold scalar elements (Int, Float, String, plain structs of 1..40 bytes); Tuples hold distinct scalar objects (a repeated object in a Tuple breaks Tuple iteration: other finding)',
+                   'containers hold scalar elements (Int, Float, String, plain structs of 1..41 bytes); Tuples hold distinct scalar objects (a repeated object in a Tuple breaks Tuple iteration: other finding)',
                    'Tree key and value types have sizes that are multiples of 8 (Tree_Alloc does not round: known finding KF-C19-tree-misaligned-header)',
                    'copy/assign of a Table of arbitrary layout is observed through content and hashes only (hcopy/hassign): its cmp is KF-C10-table-cmp territory',
                    'assign(s, s) on a String (String_Assign reallocates the buffer and then strcpy-s from the old pointer: defined only if the block stays) and growth of a List by resize are not exercised',
                    'strings contain no NUL; hash values compared on a little-endian 64-bit platform')
     def cases(self, rng, tier, boost=1):
         quick = tier == 'quick'
-        cs = hashdata_cases(rng, quick, boost)
+        # first: every plain-struct size under swap / sort / copy / assign, the sizes that are not a whole number of words first
+        # (a changed byte-wise move shows there before anywhere else); then hash_data at every length and alignment
+        cs = [size_sweep_case(rng, 'sizes_odd', [n for n in SIZES_ODD_FIRST if n % 8], 1 if quick else 3),
+              size_sweep_case(rng, 'sizes_words', [n for n in SIZES_ODD_FIRST if n % 8 == 0], 1 if quick else 3)]
+        for i in range(boost - 1 if quick else 2 * boost): cs.append(size_sweep_case(rng, f'sizes{i}', SIZES_ODD_FIRST, 2))
+        cs += align_cases(rng, quick, boost)
+        cs += hashdata_cases(rng, quick, boost)
         for i in range((30 if quick else 100) * boost): cs.append(scalar_case(rng, f'scalar{i}', 30 if quick else 60))
         for i in range((40 if quick else 130) * boost): cs.append(seq_case(rng, f'seq{i}', 12 if quick else 20, 10 if quick else (24 if i % 4 else 120)))
         for i in range((40 if quick else 130) * boost): cs.append(map_case(rng, f'map{i}', 8 if quick else 12, 12 if quick else (30 if i % 4 else 110)))
@@ -631,7 +741,7 @@ class C10(Spec):
         for l in core.lines_with('O ', c_out):
             w = l.split(' ', 2)
             if len(w) < 3: continue
-            if w[1] in ('eq', 'heq', 'copy', 'assign', 'hcopy', 'hassign', 'swap') or (w[1] == 'D' and not l.startswith('O D len=0')):
+            if w[1] in ('eq', 'heq', 'copy', 'assign', 'hcopy', 'hassign', 'swap', 'sort') or (w[1] == 'D' and not l.startswith('O D len=0')):
                 out.add(hash(l))
         return out
     def model_selfcheck(self, case, m_out):
